@@ -61,6 +61,16 @@ def snapshot(res):
     for cr in cl:
         d, m = np.ma.getdata(cr.results), np.ma.getmaskarray(cr.results)
         out[("list", cr.stream_id, cr.package, cr.test)] = [None if m[i] else int(d[i]) for i in range(len(d))]
+        # the collected data / axis arrays belong to the result as well
+        for name in ("data", "tinp", "zinp", "lat", "lon"):
+            a = getattr(cr, name)
+            if a is None:
+                continue
+            ad, am = np.ma.getdata(a), np.ma.getmaskarray(a)
+            if ad.dtype.kind == "M":
+                ad = ad.astype("datetime64[s]").astype("int64")
+            out[("list-" + name, cr.stream_id, cr.package, cr.test)] = [
+                None if (am[i] or ad[i] != ad[i]) else float(ad[i]) for i in range(ad.shape[0])] if ad.ndim == 1 else repr(ad.shape)
     cd = collect_results(list(res), how="dict")
     for sid, mods in cd.items():
         for mod, tests in mods.items():
